@@ -35,7 +35,9 @@ Record c07_variant := mkV7 {
   v7_after : option (list c07_rres);            (* the same reads after the pass; None = the driver found them
                                                    identical to the `before` list *)
   v7_round : list (c07_wop * wres);             (* write round after the pass, one request per key *)
-  v7_final : diff                               (* raw dump after the round, relative to the dump after the pass *)
+  v7_final : diff;                              (* raw dump after the round, relative to the dump after the pass *)
+  v7_iterfail : N                               (* 0: none; n: the n-th iterator step (Next) of the pass failed once - the scan
+                                                   worker then retries its range from the start *)
 }.
 
 Record c07_case := mkC7 {
@@ -133,8 +135,28 @@ Definition ranges_of (prefix : bytes) (skipped_prefixes : list bytes) : list (by
 Definition all_adds (oc : list (list rec * outcome)) : list rec := flat_map fst oc.
 
 (* the model's pass for one variant *)
+(* a pass in which the n-th iterator step fails: the worker of that range has handled the records before it (a scan
+   over that head of the snapshot), fails, and runs again over what its range holds now; every range ends with one
+   more step, the one that reports the end *)
+Definition compact_range_trunc (R : N) (lo hi : bytes) (d : dst) (seen : nat) : dst :=
+  let c := mkCfg R true 0 0 [] in
+  let d0 := mkD (d_store d) (d_ghost d) [] (d_oc d) (d_dead d) (d_trace d) in
+  w_d (wloop c (firstn seen (sort_by rec_ltb (filter (in_range lo hi) (d_store d)))) (init_w d0)).
+
+Fixpoint compact_all_f (R : N) (ranges : list (bytes * bytes)) (n : N) (d : dst) : dst :=
+  match ranges with
+  | [] => d
+  | (lo, hi) :: t =>
+      let steps := N.of_nat (length (filter (in_range lo hi) (d_store d))) + 1 in
+      if n =? 0 then compact_all_f R t 0 (compact_range R 0 lo hi d)
+      else if n <=? steps then compact_all_f R t 0 (compact_range R 0 lo hi (compact_range_trunc R lo hi d (N.to_nat (n - 1))))
+      else compact_all_f R t (n - steps) (compact_range R 0 lo hi d)
+  end.
+
 Definition variant_pass (prefix : bytes) (sk : list bytes) (V : store) (v : c07_variant) : dst :=
-  compact_all (clamp (v7_cur v) 0 (v7_req v)) 0 (ranges_of prefix sk) (init_d V (v7_oc v)).
+  if v7_iterfail v =? 0
+  then compact_all (clamp (v7_cur v) 0 (v7_req v)) 0 (ranges_of prefix sk) (init_d V (v7_oc v))
+  else compact_all_f (clamp (v7_cur v) 0 (v7_req v)) (ranges_of prefix sk) (v7_iterfail v) (init_d V (v7_oc v)).
 
 Definition variant_check (prefix : bytes) (sk : list bytes) (V : store)
            (reads : list c07_read) (cb : list c07_rres) (v : c07_variant) : bool :=
